@@ -18,8 +18,8 @@ import (
 
 type queuePlan struct {
 	Producers  int   `json:"producers"`
-	Items      []int `json:"items"`       // items per producer
-	StrayGets  int   `json:"stray_gets"`  // Get() calls by a third party "at any time"
+	Items      []int `json:"items"`      // items per producer
+	StrayGets  int   `json:"stray_gets"` // Get() calls by a third party "at any time"
 	SlowConsum bool  `json:"slow_consumer"`
 }
 
@@ -211,4 +211,3 @@ func runQueue(c *Ctx, plan any) {
 	c.Sample("producers=%d items=%v stray=%d batches=%d", p.Producers, p.Items, p.StrayGets, len(ops)-total)
 	stop = true
 }
-
